@@ -211,8 +211,109 @@ def run_tlc(ctx, name, spec, env_override=None, allow_spec_violation=False):
             "stats": st, "wall_s": round(wall, 2), "module": spec["module"]}
 
 
+def export_dir(ctx):
+    """tables exported from the specification by TLC (depends on the spec only)"""
+    d = os.path.join(WORK, "cache", "spec-" + spec_hash(), "export")
+    if os.path.exists(os.path.join(d, ".ok")):
+        return d
+    os.makedirs(d, exist_ok=True)
+    run_tlc(ctx, "export_tables", dict(kind="tlc", module="Export_Tables", cfg="Export_Tables.cfg", workers=1,
+                                       cont=False, heap="6g"), env_override={"OUTDIR": d})
+    open(os.path.join(d, ".ok"), "w").write("ok")
+    return d
+
+
+REPLAY_PROP = {"set2": ("C01", []), "set1": ("C02", []), "frame": ("C06", []), "words": ("C05", []),
+               "event": ("C14", ["C04"])}
+
+
+def graph_as_table(ctx, gname):
+    """the automaton extracted from the real object, in the table format of the generic walker"""
+    path = ctx.art(gname)
+    out = path + ".table.json"
+    if not os.path.exists(out):
+        recs = [json.loads(l) for l in open(path)]
+        alpha = ctx.alpha(gname)
+        n = len(recs)
+        tab = {"name": gname, "init": 1, "alphabet": alpha, "states": [r["i"] for r in recs],
+               # a panicking transition has no successor: point it at the state itself (the walker stops
+               # at the first mismatch and a panic is compared like any other result)
+               "next": [[(x if x else r["i"]) for x in r["post"]] if r["expanded"] else [r["i"]] * len(alpha) for r in recs],
+               "out": [r["out"] if r["expanded"] else [["unexplored"]] * len(alpha) for r in recs]}
+        json.dump(tab, open(out, "w"))
+    return out
+
+
 def run_pkv_job(ctx, name, spec):
-    raise ToolError("pkv jobs not yet implemented")
+    if spec["kind"] == "selfreplay":
+        return run_selfreplay(ctx, name, spec)
+    return run_replay(ctx, name, spec)
+
+
+def run_selfreplay(ctx, name, spec):
+    """replay the automaton extracted from the real object (by opaque Debug ids) back into the real
+    object over all streams of a given length: guards the assumption that equal renderings mean
+    equal states (hidden state would show up as a divergence) at a scale TLC could not ingest"""
+    table = graph_as_table(ctx, spec["graph"])
+    t = time.time()
+    p = subprocess.run([PKV, "replay-table", spec["table"], table, str(spec["arg"])],
+                       stdout=subprocess.PIPE, stderr=subprocess.PIPE, text=True, timeout=spec.get("timeout", 3600))
+    if p.returncode != 0:
+        raise ToolError("pkv replay-table (self) %s failed (%d): %s" % (spec["graph"], p.returncode, p.stderr[-1500:]))
+    recs, notes = [], []
+    for line in p.stdout.splitlines():
+        if line.startswith("@@M "):
+            r = json.loads(line[4:])
+            r["prop"] = spec["prop"]
+            r["kind"] = "self-replay"
+            r["note"] = "the real object diverges from the automaton extracted from it: state not captured by its rendering"
+            recs.append(r)
+        elif line.startswith("@@S "):
+            notes.append(json.loads(line[4:]))
+    calls = notes[-1]["calls"] if notes else 0
+    return {"job": name, "verdict": "mismatch" if recs else "ok", "exit": 0, "records": recs, "notes": notes,
+            "stats": {"generated": calls, "distinct": notes[-1]["sequences"] if notes else 0, "replay_calls": calls},
+            "wall_s": round(time.time() - t, 2), "module": "pkv replay-table (extracted automaton) " + spec["graph"]}
+
+
+def run_replay(ctx, name, spec):
+    """(R) replay of a TLC-exported table into the real object by the harness's generic table walker"""
+    d = export_dir(ctx)
+    table = spec["table"]
+    t = time.time()
+    p = subprocess.run([PKV, "replay-table", table, os.path.join(d, table + ".json"), str(spec["arg"])],
+                       stdout=subprocess.PIPE, stderr=subprocess.PIPE, text=True, timeout=spec.get("timeout", 3600))
+    if p.returncode != 0:
+        raise ToolError("pkv replay-table %s failed (%d): %s" % (table, p.returncode, p.stderr[-1500:]))
+    recs, notes = [], []
+    prop, also = REPLAY_PROP[table]
+    for line in p.stdout.splitlines():
+        if line.startswith("@@M "):
+            r = json.loads(line[4:])
+            panic = isinstance(r.get("observed"), list) and r["observed"] and r["observed"][0] == "panic"
+            r["prop"] = "C08" if panic else prop
+            r["also"] = [prop] + also
+            if table in ("set1", "set2"):       # same canonical case key as the (G) mechanism
+                r["kind"] = "io"
+                r["input"] = r["input"][1]
+            elif table == "frame":
+                r["kind"] = "io"
+            elif table == "event":
+                r["kind"] = "event-io"
+                r["observed_query"] = r["observed"][1] if not panic else None
+                r["observed"] = r["observed"][0] if not panic else r["observed"]
+                r["expected_query"] = r["expected"][1]
+                r["expected"] = r["expected"][0]
+            elif table == "words":
+                r["kind"] = "word"
+            r["replayed"] = True
+            recs.append(r)
+        elif line.startswith("@@S "):
+            notes.append(json.loads(line[4:]))
+    calls = notes[-1]["calls"] if notes else 0
+    return {"job": name, "verdict": "mismatch" if recs else "ok", "exit": 0, "records": recs, "notes": notes,
+            "stats": {"generated": calls, "distinct": notes[-1]["sequences"] if notes else 0, "replay_calls": calls},
+            "wall_s": round(time.time() - t, 2), "module": "Export_Tables -> pkv replay-table " + table}
 
 
 # --------------------------------------------------------------------------- registries
@@ -289,6 +390,20 @@ JOBS = {
     "trace_kb1_long": dict(kind="tlc", module="Trace_Keyboard", cfg="Trace_Keyboard.cfg", workers=1, heap="16g", timeout=3600, cont=False,
                            jvm=["-Dtlc2.tool.queue.IStateQueue=StateDeque"],
                            env={"TRACE": "art:tr_noise_kb1_long", "COMP": "kb1", "FGRAPH": "art:g_frame", "SGRAPH": "art:g_set1", "EGRAPH": "art:g_event", "WORDS": "art:t_words"}),
+    # (R) replay of TLC-exported tables: arg = stream length (scancode sets) or sampling stride
+    "replay_set2_q": dict(kind="replay", table="set2", arg=3, env={"x": "repo"}),
+    "replay_set1_q": dict(kind="replay", table="set1", arg=3, env={"x": "repo"}),
+    "replay_set2_t": dict(kind="replay", table="set2", arg=4, env={"x": "repo"}),
+    "replay_set1_t": dict(kind="replay", table="set1", arg=4, env={"x": "repo"}),
+    "replay_words": dict(kind="replay", table="words", arg=1, env={"x": "repo"}),
+    "replay_frame_q": dict(kind="replay", table="frame", arg=64, env={"x": "repo"}),
+    "replay_frame_t": dict(kind="replay", table="frame", arg=1, env={"x": "repo"}),
+    "replay_event_q": dict(kind="replay", table="event", arg=64, env={"x": "repo"}),
+    "replay_event_t": dict(kind="replay", table="event", arg=1, env={"x": "repo"}, timeout=7200),
+    "selfreplay_set2_q": dict(kind="selfreplay", table="set2", graph="g_set2", arg=3, prop="C07", env={"x": "repo"}),
+    "selfreplay_set1_q": dict(kind="selfreplay", table="set1", graph="g_set1", arg=3, prop="C07", env={"x": "repo"}),
+    "selfreplay_set2_t": dict(kind="selfreplay", table="set2", graph="g_set2", arg=4, prop="C07", env={"x": "repo"}),
+    "selfreplay_set1_t": dict(kind="selfreplay", table="set1", graph="g_set1", arg=4, prop="C07", env={"x": "repo"}),
     "props_scan": dict(kind="tlc", module="Props_Scan", cfg="Props_Scan.cfg", workers=1,
                        env={"GRAPH1": "art:g_set1", "GRAPH2": "art:g_set2"}),
 }
@@ -297,11 +412,16 @@ JOBS = {
 # "impl" jobs bind it to the code. impl_count: how many implementation transitions / records /
 # cells TLC validated in those jobs (computed from the artefacts).
 PROPS = {
-    "C01": dict(quick=["mc_set2", "conf_set2", "conf_kb2_bytes"], graphs=["g_set2", "g_kb2_bytes"]),
-    "C02": dict(quick=["mc_set1", "conf_set1", "conf_kb1_bytes"], graphs=["g_set1", "g_kb1_bytes"]),
-    "C05": dict(quick=["mc_frame", "conf_words"], thorough=["mc_frame_full", "conf_words"], tables=["t_words"]),
-    "C06": dict(quick=["mc_frame", "conf_frame"], thorough=["mc_frame_full", "conf_frame"], graphs=["g_frame"]),
-    "C07": dict(quick=["mc_set1", "mc_set2", "props_scan"], graphs=["g_set1", "g_set2"]),
+    "C01": dict(quick=["mc_set2", "conf_set2", "conf_kb2_bytes", "replay_set2_q"],
+                thorough=["mc_set2", "conf_set2", "conf_kb2_bytes", "replay_set2_t"], graphs=["g_set2", "g_kb2_bytes"]),
+    "C02": dict(quick=["mc_set1", "conf_set1", "conf_kb1_bytes", "replay_set1_q"],
+                thorough=["mc_set1", "conf_set1", "conf_kb1_bytes", "replay_set1_t"], graphs=["g_set1", "g_kb1_bytes"]),
+    "C05": dict(quick=["mc_frame", "conf_words", "replay_words"], thorough=["mc_frame_full", "conf_words", "replay_words"],
+                tables=["t_words"]),
+    "C06": dict(quick=["mc_frame", "conf_frame", "replay_frame_q"], thorough=["mc_frame_full", "conf_frame", "replay_frame_t"],
+                graphs=["g_frame"]),
+    "C07": dict(quick=["mc_set1", "mc_set2", "props_scan", "selfreplay_set1_q", "selfreplay_set2_q"],
+                thorough=["mc_set1", "mc_set2", "props_scan", "selfreplay_set1_t", "selfreplay_set2_t"], graphs=["g_set1", "g_set2"]),
     "C13": dict(quick=["props_scan"], graphs=["g_set1", "g_set2"]),
     "C19": dict(quick=["mc_set1", "mc_set2", "props_scan"], graphs=["g_set1", "g_set2"]),
     "C18": dict(quick=["mc_keyboard_set2", "conf_kb2_mixedq", "conf_kb1_mixedq", "trace_kb2", "trace_kb1"],
@@ -315,8 +435,10 @@ PROPS = {
     "C09": dict(quick=["conf_layouts"], tables=["t_layouts"]),
     "C10": dict(quick=["conf_layouts"], tables=["t_layouts"]),
     "C11": dict(quick=["conf_layouts", "conf_preds"], tables=["t_layouts", "t_preds"]),
-    "C04": dict(quick=["mc_event", "conf_event", "conf_kb2_events"], graphs=["g_event", "g_kb2_events"]),
-    "C14": dict(quick=["mc_event", "conf_event", "conf_kb2_events"], graphs=["g_event", "g_kb2_events"]),
+    "C04": dict(quick=["mc_event", "conf_event", "conf_kb2_events", "replay_event_q"],
+                thorough=["mc_event", "conf_event", "conf_kb2_events", "replay_event_t"], graphs=["g_event", "g_kb2_events"]),
+    "C14": dict(quick=["mc_event", "conf_event", "conf_kb2_events", "replay_event_q"],
+                thorough=["mc_event", "conf_event", "conf_kb2_events", "replay_event_t"], graphs=["g_event", "g_kb2_events"]),
     "C08": dict(quick=["mc_frame", "conf_frame", "conf_words", "conf_set1", "conf_set2", "conf_kb1_bytes",
                        "conf_kb2_bytes", "conf_event", "conf_kb2_events", "conf_layouts"],
                 graphs=["g_frame", "g_set1", "g_set2", "g_kb1_bytes", "g_kb2_bytes", "g_event", "g_kb2_events"],
@@ -344,6 +466,10 @@ def canon_key(rec):
         obs = rec.get("observed")
         obs_s = "/".join(str(x) for x in obs) if isinstance(obs, list) and obs and obs[0] != "panic" else "panic"
         return "io comp=%s ctx=%s input=%s observed=%s" % (rec.get("comp"), ctx_s, inp_s, obs_s)
+    if k == "self-replay":
+        return "self-replay comp=%s state=%s input=%s observed=%s" % (
+            rec.get("comp"), rec.get("state"), json.dumps(rec.get("input"), separators=(",", ":")),
+            json.dumps(rec.get("observed"), separators=(",", ":")))
     if k in ("trace-ret", "trace-stage", "trace-obs"):
         return "%s comp=%s line=%s input=%s observed=%s" % (
             k, rec.get("comp"), rec.get("line"), json.dumps(rec.get("input"), separators=(",", ":")),
@@ -434,6 +560,9 @@ def write_replay(ctx, pid, n, rec, jobname):
                 doc["inputs"].append(inp)
         except Exception as e:  # replay stays usable as a record even without inputs
             doc["note"] = "could not expand access sequence: %s" % e
+    elif "stream" in rec:
+        doc["component"] = comp
+        doc["inputs"] = rec["stream"]
     elif rec.get("kind") == "word":
         doc["component"] = "frame" if comp == "frame" else "kb2"
         doc["inputs"] = [["word", rec["word"]]]
@@ -556,6 +685,7 @@ def run_check(pid, tier, seed):
         with open(path) as f:
             first = json.loads(f.readline())
         samples.append({"artefact": tname, "record": {k: (v[:4] if isinstance(v, list) else v) for k, v in first.items()}})
+    impl_n += sum(r["stats"].get("replay_calls", 0) for r in results)
     states = sum(r["stats"].get("distinct", 0) for r in results)
     trans = sum(r["stats"].get("generated", 0) for r in results)
     ev = {
